@@ -164,7 +164,7 @@ func loadPkgCache(lpkg *listedPackage, pkg *types.Package, files []*ast.File, in
 	}
 	cacheID := pkgCacheID(lpkg)
 	filename, _, err := fsCache.GetFile(cacheID)
-	verifEvent("pkgcache-get", "pkg", lpkg.ImportPath, "key", lpkg.GarbleActionID, "hit", err == nil)
+	verifEvent("pkgcache-get", "pkg", lpkg.ImportPath, "key", cacheID, "aid", lpkg.GarbleActionID, "hit", err == nil)
 	// Already in the cache; load it directly.
 	if err == nil {
 		data, err := os.ReadFile(filename)
@@ -212,7 +212,7 @@ func computePkgCache(fsCache *cache.Cache, lpkg *listedPackage, pkg *types.Packa
 			continue // nothing to load
 		}
 		if err := func() error { // function literal for the deferred close
-			verifEvent("pkgcache-dep", "pkg", lpkg.ImportPath, "key", lpkg.GarbleActionID)
+			verifEvent("pkgcache-dep", "pkg", lpkg.ImportPath, "key", pkgCacheID(lpkg), "aid", lpkg.GarbleActionID)
 			cacheID := pkgCacheID(lpkg)
 			if filename, _, err := fsCache.GetFile(cacheID); err == nil {
 				verifEvent("pkgcache-dep-hit", "pkg", lpkg.ImportPath)
@@ -278,7 +278,7 @@ func computePkgCache(fsCache *cache.Cache, lpkg *listedPackage, pkg *types.Packa
 	if err := fsCache.PutBytes(cacheID, data); err != nil {
 		return pkgCache{}, err
 	}
-	verifEvent("pkgcache-put", "pkg", lpkg.ImportPath, "key", lpkg.GarbleActionID, "names", len(computed.ReflectObjectNames), "apis", len(computed.ReflectAPIs))
+	verifEvent("pkgcache-put", "pkg", lpkg.ImportPath, "key", cacheID, "aid", lpkg.GarbleActionID, "names", len(computed.ReflectObjectNames), "apis", len(computed.ReflectAPIs))
 	return computed, nil
 }
 
